@@ -21,10 +21,15 @@
 package template
 
 import (
+	"bytes"
 	"go/format"
+	"go/parser"
+	"go/token"
 	"regexp"
+	"strconv"
 
 	"github.com/gontainer/gontainer-helpers/v3/grouperror"
+	"golang.org/x/tools/go/ast/astutil"
 	"golang.org/x/tools/imports"
 )
 
@@ -59,7 +64,53 @@ func (CodeFormatter) Format(c string) (_ string, err error) {
 
 	// remove unused imports
 	// required for generating stubs
-	r, err = imports.Process("", r, nil)
+	r, err = removeUnusedImports(r)
+	if err != nil {
+		return "", err
+	}
+
+	// sort and group the imports only: resolving missing imports would consult
+	// the environment (GOPATH, module cache), and the output must not depend on it
+	r, err = imports.Process("", r, &imports.Options{
+		FormatOnly: true,
+		Comments:   true,
+		TabIndent:  true,
+		TabWidth:   8,
+	})
 
 	return string(r), err
+}
+
+// removeUnusedImports drops the named imports nothing refers to.
+// All imports of the generated code have an explicit name, so the check is purely syntactic.
+func removeUnusedImports(src []byte) ([]byte, error) {
+	fset := token.NewFileSet()
+	f, err := parser.ParseFile(fset, "", src, parser.ParseComments)
+	if err != nil {
+		return nil, err
+	}
+
+	type namedImport struct{ name, path string }
+	var unused []namedImport
+	for _, imp := range f.Imports {
+		if imp.Name == nil || imp.Name.Name == "_" || imp.Name.Name == "." {
+			continue
+		}
+		path, err := strconv.Unquote(imp.Path.Value)
+		if err != nil {
+			return nil, err
+		}
+		if !astutil.UsesImport(f, path) {
+			unused = append(unused, namedImport{name: imp.Name.Name, path: path})
+		}
+	}
+	for _, imp := range unused {
+		astutil.DeleteNamedImport(fset, f, imp.name, imp.path)
+	}
+
+	var buf bytes.Buffer
+	if err := format.Node(&buf, fset, f); err != nil {
+		return nil, err
+	}
+	return buf.Bytes(), nil
 }
